@@ -318,6 +318,32 @@ pub fn run(ctx: &mut Ctx) {
                 }
             }
         }
+        // an application that dispatches a capture and then simply lets go of the pool, reading the
+        // result channel until it closes: everything that was accepted as Queued is still analysed
+        if t % 3 == 1 && !ctx.miri() {
+            for kind in [PoolKind::Tcp, PoolKind::Http, PoolKind::Tls] {
+                let short: Vec<TFrame> = trace.iter().take(1500).cloned().collect();
+                let Ok(seq) = sequential(kind, &short, with_db, |_| scenario::T0) else { continue };
+                let cfg = PoolCfg { workers: 1 + r.usize(4), queue: short.len() + 8, batch: *r.pick(&[1usize, 32]), timeout_ms: *r.pick(&[1u64, 10]), max_conn: 4096, with_db };
+                huginn_net_tcp::verif_hooks::clock::set_ms(scenario::T0);
+                pool::reset_log(0, 0);
+                let via = r.chance(1, 2);
+                let Ok(h) = (if via { Handle::new_via_analyzer(kind, &cfg, Filters::none()) } else { Handle::new(kind, &cfg, Filters::none()) }) else { continue };
+                let mut all_queued = true;
+                for f in &short {
+                    if !h.dispatch(f.frame.clone()) && f.conn != usize::MAX {
+                        all_queued = false;
+                    }
+                }
+                match h.drop_and_collect(Duration::from_secs(30)) {
+                    Some(results) => {
+                        let par = ParOutcome { results, all_queued, drained: true };
+                        compare(ctx, kind, &cfg, if via { "dropped-while-busy/analyzer-built" } else { "dropped-while-busy" }, &seq, &par, t, &short);
+                    }
+                    None => ctx.inconclusive("result channel did not close within 30 s after the pool was dropped"),
+                }
+            }
+        }
         // analyze_pcap entry in parallel mode (TCP: includes the shutdown path)
         if t % 4 == 0 && !ctx.miri() {
             pcap_mode(ctx, &mut r, t, &trace);
